@@ -137,7 +137,7 @@ pub fn drive_c19(out: &mut dyn std::io::Write, seed: u64, thorough: bool) {
             a[bit / 8] |= 1 << (bit % 8);
             v.push((a, rng.bytes(n)));
         }
-        for _ in 0..(if thorough { 30 } else { 5 }) {
+        for _ in 0..(if thorough { 300 } else { 5 }) {
             v.push((rng.bytes(n), rng.bytes(n)));
         }
         v
